@@ -5,6 +5,8 @@ inside a forked worker, the repository is not touched.  A check's verdict is tak
 *masked* execution, so any other way of breaking the property — including a worse variant of a
 listed defect — is still reported.
 """
+import sys
+
 import puan
 import puan.logic.plog as pg
 
@@ -27,15 +29,22 @@ def kf1_assume_writeback():
         try:
             return orig(self, new_variable_bounds)
         finally:
-            if named and self.variable is not saved:
-                v = self.variable
-                try:
-                    expected = puan.variable(id=saved.id, bounds=new_variable_bounds.get(saved.id))
-                except Exception:
-                    expected = None
-                if (expected is not None and type(v) is puan.variable and v.id == expected.id
-                        and v.bounds.as_tuple() == expected.bounds.as_tuple()):
-                    self.variable = saved
+            # the neutraliser is harness code: the fault injector (abort-async traces library lines, and
+            # puan.variable() below is a library call) must not be able to interrupt the restore itself
+            tr = sys.gettrace()
+            sys.settrace(None)
+            try:
+                if named and self.variable is not saved:
+                    v = self.variable
+                    try:
+                        expected = puan.variable(id=saved.id, bounds=new_variable_bounds.get(saved.id))
+                    except Exception:
+                        expected = None
+                    if (expected is not None and type(v) is puan.variable and v.id == expected.id
+                            and v.bounds.as_tuple() == expected.bounds.as_tuple()):
+                        self.variable = saved
+            finally:
+                sys.settrace(tr)
 
     assume._pss_shim = True
     assume.__wrapped__ = orig
